@@ -1111,7 +1111,8 @@ func drawIndexSize(t *rapid.T, need int, label string) int {
 	case c < 19:
 		n = rapid.SampledFrom(bigSizes).Draw(t, label)
 	default:
-		n = rapid.SampledFrom([]int{65535, 40001, 32768}).Draw(t, label)
+		// beyond x/image's limit of 40000 subroutines: rare
+		n = rapid.SampledFrom([]int{65535, 40001, 32768, 300, 1240, 108}).Draw(t, label)
 	}
 	if n < need {
 		n = need
